@@ -270,7 +270,7 @@ public:
         auto[min_slope, max_slope] = get_slope_range();
         auto slope = (min_slope + max_slope) / 2.;
         auto intercept = i_y - i_x * slope;
-        return {slope, intercept};
+        return {slope, std::round(intercept)}; // round to nearest, like the integer branch (the result type is integral)
     }
 
     std::pair<long double, long double> get_slope_range() const {
